@@ -67,6 +67,19 @@ Qed.
 Lemma no_empty_fold_index hc names ix : no_empty ix -> no_empty (fold_left (index_name hc) names ix).
 Proof. revert ix. induction names as [|a names IH]; intros ix H; cbn [fold_left]; [exact H|]. apply IH, no_empty_index_name, H. Qed.
 
+Lemma nodup_keys_fold_unindex hc names (ix : amap (list hash)) :
+  NoDup (akeys ix) -> NoDup (akeys (fold_left (unindex_name hc) names ix)).
+Proof.
+  revert ix. induction names as [|a names IH]; intros ix H; cbn [fold_left]; [exact H|].
+  apply IH. unfold unindex_name. destruct (is_nil _); [apply NoDup_akeys_adelete | apply NoDup_akeys_ainsert]; exact H.
+Qed.
+Lemma nodup_keys_fold_index hc names (ix : amap (list hash)) :
+  NoDup (akeys ix) -> NoDup (akeys (fold_left (index_name hc) names ix)).
+Proof.
+  revert ix. induction names as [|a names IH]; intros ix H; cbn [fold_left]; [exact H|].
+  apply IH. unfold index_name. apply NoDup_akeys_ainsert. exact H.
+Qed.
+
 (** ---- the invariant ---- *)
 Section Inv.
   (** a hash determines its certificate, hence its names: blake3 of the DER chain *)
@@ -75,6 +88,7 @@ Section Inv.
 
   Record Inv (s : state) : Prop := {
     inv_nodup : NoDup (akeys (cache s));
+    inv_nodup_idx : NoDup (akeys (index s));
     inv_cert : forall h c, alookup h (cache s) = Some c ->
                  c_hash c = h /\ c_names c = names_of h /\ h <> [];
     (** h is listed under n exactly as often as n occurs among the names of the cached h *)
@@ -85,7 +99,8 @@ Section Inv.
   }.
 
   (** certificates carried by operations: names agree with the hash; a hash is never "" *)
-  Definition wf_copy (c : cert) : Prop := c_names c = names_of (c_hash c).
+  (** a copy read earlier -- or Go's zero value, read for a hash that was not cached *)
+  Definition wf_copy (c : cert) : Prop := c_names c = names_of (c_hash c) \/ c_hash c = [].
   Definition wf_cert (c : cert) : Prop := c_names c = names_of (c_hash c) /\ c_hash c <> [].
   Definition wf_op (o : op) : Prop :=
     match o with
@@ -99,6 +114,7 @@ Section Inv.
   Lemma inv_init : Inv init.
   Proof.
     constructor; cbn.
+    - constructor.
     - constructor.
     - discriminate.
     - reflexivity.
@@ -127,6 +143,7 @@ Section Inv.
   Proof.
     intros HI Hc. constructor.
     - apply NoDup_akeys_adelete, (inv_nodup s HI).
+    - apply nodup_keys_fold_unindex, (inv_nodup_idx s HI).
     - intros h c0. rewrite alookup_remove_cert. destruct (str_eqb (c_hash c) h); [discriminate|].
       apply (inv_cert s HI).
     - intros n h. rewrite idx_remove_cert. cbn [remove_cert cache]. rewrite amem_adelete.
@@ -150,6 +167,12 @@ Section Inv.
     destruct (alookup h (cache s)) as [c|] eqn:E.
     - intros _. apply (inv_cert s HI) in E. destruct E as (-> & -> & _). reflexivity.
     - cbn. rewrite (inv_not_mem_nil s HI). discriminate.
+  Qed.
+
+  Lemma remove_copy_inv s c : Inv s -> wf_copy c -> Inv (remove_cert c s).
+  Proof.
+    intros HI Hwf. apply remove_cert_inv; [exact HI|]. intros Hm. destruct Hwf as [H|H]; [exact H|].
+    rewrite H, (inv_not_mem_nil s HI) in Hm. discriminate.
   Qed.
 
   Lemma remove_cert_shrinks c s h : amem h (cache (remove_cert c s)) = true -> amem h (cache s) = true.
@@ -194,6 +217,7 @@ Section Inv.
     assert (Hm : amem h (cache s) = true) by (apply amem_alookup; eauto).
     constructor; cbn [cache index].
     - apply NoDup_akeys_ainsert, (inv_nodup s HI).
+    - apply (inv_nodup_idx s HI).
     - intros h0 c0. rewrite alookup_ainsert. destruct (str_eqb_spec h h0) as [<-|Hne].
       + intros H; injection H as <-. repeat split; try assumption.
         apply (inv_cert s HI) in E. tauto.
@@ -212,6 +236,7 @@ Section Inv.
   Proof.
     intros HI [Hn Hh] Hm Hcap. constructor; cbn [cache index].
     - apply NoDup_akeys_ainsert, (inv_nodup s HI).
+    - apply nodup_keys_fold_index, (inv_nodup_idx s HI).
     - intros h0 c0. rewrite alookup_ainsert. destruct (str_eqb_spec (c_hash c) h0) as [<-|Hne].
       + intros H; injection H as <-. auto.
       + apply (inv_cert s HI).
@@ -255,6 +280,7 @@ Section Inv.
   Lemma write_back_inv s c : Inv s -> wf_copy c -> Inv (write_back c s).
   Proof.
     intros HI Hc. unfold write_back. destruct (amem (c_hash c) (cache s)) eqn:E; [|exact HI].
+    destruct Hc as [Hc|Hc]; [|rewrite Hc, (inv_not_mem_nil s HI) in E; discriminate].
     apply amem_alookup in E. destruct E as [e E]. eapply update_cached_inv; eauto.
   Qed.
   Lemma set_ocsp_at_inv s hv : Inv s -> Inv (set_ocsp_at hv s).
@@ -273,9 +299,9 @@ Section Inv.
   Proof.
     intros HI Hwf. destruct o as [c v|c|old new v|hs|sj|c|upd|h v]; cbn [step wf_op] in *.
     - apply add_cert_inv; assumption.
-    - apply remove_cert_inv; [assumption | intros _; exact Hwf].
+    - apply remove_copy_inv; assumption.
     - destruct Hwf as [Ho Hn]. unfold replace_cert. apply add_cert_inv; [|assumption].
-      apply remove_cert_inv; [assumption | intros _; exact Ho].
+      apply remove_copy_inv; assumption.
     - apply remove_hashes_inv, HI.
     - apply remove_hashes_inv, HI.
     - apply write_back_inv; assumption.
